@@ -648,6 +648,39 @@ func TestPropProxy(t *testing.T) {
 	})
 }
 
+// TestPropShrinkage: the proxy re-serialises the document, which changes its length (a character
+// reference written as &quot; comes back one byte shorter); documents are enumerated whose
+// re-serialisation is 0..130 bytes shorter than the original, so that every coincidence between
+// that difference and the length of what is appended is covered.
+func TestPropShrinkage(t *testing.T) {
+	shard, shards := ev.Shard()
+	n := 0
+	for k := 0; k <= 130; k++ {
+		if k%shards != shard {
+			continue
+		}
+		for _, csp := range []string{"", "script-src 'self' 'nonce-r4nd0m'", "script-src 'nonce-dGVtcGwtbm9uY2UtMTIzNA=='"} {
+			for _, enc := range []string{"", "gzip", "br"} {
+				c := Case{
+					Doc:         "<html><head><title>t</title></head><body><p>" + strings.Repeat("&quot;", k) + "</p></body></html>",
+					Repeat:      1,
+					ContentType: "text/html; charset=utf-8",
+					Encoding:    enc,
+					CSP:         csp,
+					AcceptEnc:   true,
+				}
+				n++
+				rec.Eval(1)
+				if err := decide(c); err != nil {
+					rec.Fail(t, c, "%v", err)
+				}
+			}
+		}
+	}
+	rec.ClassN("documents whose re-serialisation is 0..130 bytes shorter (enumerated completely)", n)
+	rec.Enumerated(int64(n))
+}
+
 func TestReplay(t *testing.T) {
 	for _, r := range ev.RunReplays() {
 		t.Logf("%+v", r)
